@@ -188,7 +188,14 @@ class ConnSession:
             elif k == "get2":
                 self.conn2.get(op[1], op[2])
             elif k == "snap":
-                res = list(c.get_communication_log_items())
+                got_ = c.get_communication_log_items()
+                res = list(got_)
+                # a client may do what it likes with the list it was given (sort it, clear it, append to it): later requests must not care
+                try:
+                    got_.clear()
+                    got_.append("scribbled by the client")
+                except Exception:  # noqa: BLE001  (an immutable sequence is fine too)
+                    pass
             elif k == "connected":
                 res = bool(c.connected)
             elif k == "drop":
